@@ -34,11 +34,26 @@ Oracle (from the property statement):
   plain class overriding `_on_change`, an inherited override, a mixin override,
   a functor subclass -- in every order in which the classes get their first
   notification in the process (fresh classes per scenario).
+* "Every mutating call" includes the library's own helpers that change a tree
+  in place on the caller's behalf (pg.patching.patch_on_key / _path / _value /
+  _type / _member, pg.patching.patch with a dict, function, Patcher object,
+  URI or list rule, Patcher.patch, pg.symbolic.deref(recursive=True)): one
+  call = one event per affected receiver, and none inside a disabled scope /
+  with skip_notification=True.  The locations a helper changes are computed
+  from its documented selection rule (key / path / value / type / member of
+  class) on inputs where that rule is unambiguous.
+* An option left at (or explicitly given) its neutral value does not change
+  the contract: skip_notification=False with notifications enabled delivers
+  as usual, skip_notification=None inside a disabled scope delivers nothing.
+* Repetition counts and element counts are input classes of their own:
+  `l *= n` for n < 0, 0, 1, 2, 3 (4), extend / slice growth by 3 elements --
+  always ONE call, hence one event per receiver with all the locations.
 * A call is "inside a notifications-disabled scope" iff the innermost
   `pg.notify_on_change` scope of the calling thread that is still open says
   False -- however inner scopes were left (normally or by an exception).
 """
 import itertools
+import re
 import traceback
 
 import pyglove as pg
@@ -82,13 +97,22 @@ PRE_PARTS = {
     'cbl': '''def cbl(v):
   h=[];l=pg.List(v,onchange_callback=lambda u:LOG.append(('c',who(h,u),dict(u))));h.append(l);return l
 ''',
+    # Registered patchers (re-registration under the same name is allowed).
+    'c09_set': '''@pg.patcher([('path',T.Str()),('v',T.Int())])
+def c09_set(src,path,v):return {path:v}
+''',
+    'c09_bump': '''@pg.patcher([('d',T.Int())])
+def c09_bump(src,d):return lambda k,v:v+d if isinstance(v,int) and not isinstance(v,bool) else v
+''',
 }
 _NS = {'__name__': __name__}
 exec(compile(PRE_HEAD + ''.join(PRE_PARTS.values()), '<c09-pre>', 'exec'), _NS)  # pylint: disable=exec-used
 LOG = _NS['LOG']
 P, B, Q, cbd, cbl = (_NS[_k] for _k in ('P', 'B', 'Q', 'cbd', 'cbl'))
+c09_set, c09_bump = _NS['c09_set'], _NS['c09_bump']
 SHORT_PRE = ('import pyglove as pg\n'
-             'from bounded.c09_notify import P, B, Q, cbd, cbl, LOG\n')
+             'from bounded.c09_notify import P, B, Q, cbd, cbl, LOG, c09_set, '
+             'c09_bump\n')
 
 TREES = {
     'objs': "P(a=1, b=P(a=2, b=B(u=Q(z=1, r=1)), l=[1, cbd(x=1)]), "
@@ -108,6 +132,14 @@ TREES = {
     'cb-list': "cbl([1, pg.Dict(d=[2, B()]), 3])",
 }
 SMALL_TREES = ('bare-list', 'bare-obj', 'cb-list')
+# Trees only used by drv_helpers (references cannot be serialized, so the
+# generic mutator alphabet and the derived-facts oracle are not run on them).
+REF_TREES = {
+    'refs': "cbd(a=P(a=1, b=pg.Ref(Q(z=1, r=2))), "
+            "e=pg.Dict(f=B(u=pg.Ref(cbd(x=1))), g=cbl([3, pg.Ref(B(t=2))])), "
+            "r=pg.Ref(B()))",
+}
+TREE_SRC = dict(TREES, **REF_TREES)
 _CODE = {}
 
 
@@ -133,13 +165,14 @@ def preamble(*srcs):
   if 'cbd(' in text or 'cbl(' in text:
     out += PRE_PARTS['who']
   for name, part in PRE_PARTS.items():
-    if name != 'who' and (name + '(' in text or name + '.' in text):
+    if name != 'who' and (name + '(' in text or name + '.' in text or
+                          name + '?' in text):
       out += part
   return out
 
 
 def build(tree):
-  return _eval(TREES[tree])
+  return _eval(TREE_SRC[tree])
 
 
 def kind_of(v):
@@ -158,7 +191,8 @@ def sym_nodes(root):
   def walk(v):
     out.append((tuple(v.sym_path.keys), v))
     for _, c in v.sym_items():
-      if isinstance(c, pg.Symbolic):
+      # A reference is a leaf: what it points to is not part of this tree.
+      if isinstance(c, pg.Symbolic) and not isinstance(c, pg.Ref):
         walk(c)
   walk(root)
   return out
@@ -386,6 +420,14 @@ def dict_ops(at, n, r, nvals):
           [((k,), 'SET'), ((newkey,), 'SET')], variant='dict-2')
       add('dict.rebind/dict-2', f'n.rebind({{{k!r}: {a}, {newkey!r}: {b}}})',
           [((k,), 'SET'), ((newkey,), 'SET')])
+    k2, k3 = newkey + '2', newkey + '3'
+    if k2 not in keys and k3 not in keys:
+      x, y, z = _vals(r, 3) if r else _vals(None, 3)
+      three = [((newkey,), 'SET'), ((k2,), 'SET'), ((k3,), 'SET')]
+      add('dict.update', f'n.update({{{newkey!r}: {x}, {k2!r}: {y}, '
+          f'{k3!r}: {z}}})', three, variant='dict-3')
+      add('dict.rebind/dict-3', f'n.rebind({{{newkey!r}: {x}, {k2!r}: {y}, '
+          f'{k3!r}: {z}}})', three)
   _combined_arg_ops(add, n, r, keys, newkey, 'dict', 'n')
   add('dict.update', 'n.update({})', [], nochange=True, variant='empty')
   add('dict.pop/absent-key-default', "n.pop('nope', None)", [], nochange=True)
@@ -557,9 +599,27 @@ def list_ops(at, n, r, nvals):
   add('list.iadd', f'n += [{a}, {b}]', [((ln,), 'SET'), ((ln + 1,), 'SET')])
   add('list.rebind/append', f'n.rebind({{{ln + 3}: {v()}}})',
       [((ln,), 'SET')])
+  c3 = v()
+  add('list.extend/3-elements', f'n.extend([{a}, {b}, {c3}])',
+      [((ln + i,), 'SET') for i in range(3)], must_succeed=True)
+  add('list.setitem/slice-append-3', f'n[{ln}:] = [{a}, {b}, {c3}]',
+      [((ln + i,), 'SET') for i in range(3)], must_succeed=True)
   if ln:
-    add('list.imul/2', 'n *= 2', [((ln + i,), 'SET') for i in range(ln)])
-    add('list.imul/0', 'n *= 0', [((i,), 'DEL') for i in range(ln)])
+    # In-place repetition: one call whatever the count; the count classes are
+    # below zero, zero, one (nothing changes), two, three and (thorough) four.
+    add('list.imul/2', 'n *= 2', [((ln + i,), 'SET') for i in range(ln)],
+        must_succeed=True)
+    if ln <= 8:
+      add('list.imul/3', 'n *= 3',
+          [((ln + i,), 'SET') for i in range(2 * ln)], must_succeed=True)
+    if ln <= 4 and nvals > 2:
+      add('list.imul/4', 'n *= 4',
+          [((ln + i,), 'SET') for i in range(3 * ln)], must_succeed=True)
+    add('list.imul/1', 'n *= 1', [], nochange=True, must_succeed=True)
+    add('list.imul/0', 'n *= 0', [((i,), 'DEL') for i in range(ln)],
+        must_succeed=True)
+    add('list.imul/negative', 'n *= -2', [((i,), 'DEL') for i in range(ln)],
+        must_succeed=True)
     add('list.clear', 'n.clear()', [((i,), 'DEL') for i in range(ln)])
     for i in sorted({0, ln - 1}):
       for val in _vals(r, nvals):
@@ -622,6 +682,119 @@ def list_ops(at, n, r, nvals):
   return ops
 
 
+def _locations(n, rel=()):
+  """[(relkeys, value, parent)] of every location below n, at every depth."""
+  out = []
+  for k, v in n.sym_items():
+    out.append((rel + (k,), v, n))
+    if isinstance(v, pg.Symbolic) and not isinstance(v, pg.Ref):
+      out += _locations(v, rel + (k,))
+  return out
+
+
+def _is_int(v):
+  return isinstance(v, int) and not isinstance(v, bool)
+
+
+_MEMBERS = (('P', 'a'), ('B', 't'), ('Q', 'r'))   # Int-typed members
+
+
+def helper_ops(at, n, r):
+  """Library helpers that change the tree below `n` in place, in ONE call.
+
+  The expected locations follow from the documented selection rule of each
+  helper; a pattern is only used when every location it selects holds a plain
+  int (so that neither the traversal order nor the treatment of absent values
+  matters) and, for paths, when the selection is the same whether paths are
+  read relative to `n` or to the root.
+  """
+  ops = []
+  locs = _locations(n)
+  ints = [rel for rel, v, _ in locs if _is_int(v)]
+  if not ints:
+    return ops
+  # Search-space placeholders constrain their own members (a bumped
+  # num_choices is rightly refused); everywhere else an int for an int is an
+  # ordinary mutation that has to return normally.
+  sure = not any(isinstance(v, pg.hyper.HyperPrimitive) for _, v, _ in locs)
+  def add(name, src, exp, **kw):
+    ops.append(dict(name=name, at=at, src=src, exp=exp, must_succeed=sure,
+                    **kw))
+  fresh = lambda: next(_counter)
+  pick = (lambda xs: xs[len(xs) // 2]) if r is None else r.choice
+  how = ((lambda i, d: f'value={i}') if (r.random() < 0.5 if r else len(at) % 2)
+         else (lambda i, d: f'value_fn=lambda v: v + {d}'))
+  all_int = lambda sel: bool(sel) and all(_is_int(v) for _, v, _ in sel)
+  val_of = {rel: v for rel, v, _ in locs}
+  # -- pattern-based helpers ------------------------------------------------
+  # (isinstance(True, int): booleans are selected by type int as well.)
+  add('patching.patch_on_type', 'pg.patching.patch_on_type(n, int, '
+      'value_fn=lambda v: v + 1000)',
+      [(rel, 'SET') for rel, v, _ in locs if isinstance(v, int)])
+  old = val_of[pick(ints)]
+  add('patching.patch_on_value',
+      f'pg.patching.patch_on_value(n, {old}, {how(fresh(), 2000)})',
+      [(rel, 'SET') for rel, v, _ in locs if _is_int(v) and v == old])
+  keys = []
+  for key in sorted({str(rel[-1]) for rel in ints}):
+    sel = [x for x in locs if str(x[0][-1]) == key]
+    if all_int(sel):
+      keys.append((key, sel))
+  if keys:
+    key, sel = pick(keys)
+    add('patching.patch_on_key', f"pg.patching.patch_on_key(n, "
+        f"{'^' + re.escape(key) + '$'!r}, {how(fresh(), 3000)})",
+        [(x[0], 'SET') for x in sel])
+  paths = []
+  for rel in ints:
+    rx = '.*' + re.escape(pstr(rel[-2:])) + '$'
+    sel = [x for x in locs if re.match(rx, pstr(x[0]))]
+    sel_abs = [x for x in locs if re.match(rx, pstr(at + x[0]))]
+    if all_int(sel) and [x[0] for x in sel] == [x[0] for x in sel_abs]:
+      paths.append((rx, sel))
+  if paths:
+    rx, sel = pick(paths)
+    add('patching.patch_on_path',
+        f'pg.patching.patch_on_path(n, {rx!r}, {how(fresh(), 4000)})',
+        [(x[0], 'SET') for x in sel])
+  members = []
+  for cls, name in _MEMBERS:
+    sel = [x for x in locs if isinstance(x[2], _NS[cls]) and x[0][-1] == name]
+    if all_int(sel):
+      members.append((cls, name, sel))
+  if members:
+    cls, name, sel = pick(members)
+    add('patching.patch_on_member', f'pg.patching.patch_on_member(n, {cls}, '
+        f'{name!r}, {how(fresh(), 5000)})', [(x[0], 'SET') for x in sel])
+  # -- rule-based helpers -----------------------------------------------------
+  slots = _descendant_slots(n)
+  bump = [(rel, 'SET') for rel in ints]
+  add('patching.patch/function-rule', 'pg.patching.patch(n, lambda k, v: '
+      'v + 6000 if isinstance(v, int) and not isinstance(v, bool) else v)',
+      bump)
+  add('patching.patch/patcher-object-function-rule',
+      'pg.patching.patch(n, c09_bump(d=7000))', bump)
+  if slots:
+    p1 = pick(slots)
+    p2 = max(slots, key=lambda q: (len(q), str(q)))
+    two = [p1] if p1 == p2 else [p1, p2]
+    body = ', '.join(f'{pstr(q)!r}: {fresh()}' for q in two)
+    add('patching.patch/dict-rule', f'pg.patching.patch(n, {{{body}}})',
+        [(q, 'SET') for q in two])
+    add('patching.patch/rule-list-one-effective',
+        f'pg.patching.patch(n, [lambda k, v: v, {{{body}}}, {{}}])',
+        [(q, 'SET') for q in two])
+    add('patching.patch/patcher-object',
+        f'pg.patching.patch(n, c09_set(path={pstr(p1)!r}, v={fresh()}))',
+        [(p1, 'SET')])
+    add('patching.patch/patcher-uri',
+        f"pg.patching.patch(n, 'c09_set?path={pstr(p1)}&v={fresh()}')",
+        [(p1, 'SET')])
+    add('patching.Patcher.patch',
+        f'c09_set(path={pstr(p2)!r}, v={fresh()}).patch(n)', [(p2, 'SET')])
+  return ops
+
+
 def gen_ops(root, r=None, nvals=3):
   try:
     return _gen_ops(root, r, nvals)
@@ -642,6 +815,9 @@ def _gen_ops(root, r=None, nvals=3):
       ops += list_ops(keys, n, r, nvals)
     elif k == 'object':
       ops += object_ops(keys, n, r, nvals)
+    # Histories (r given) draw the helpers at a seeded third of the nodes.
+    if k is not None and (r is None or r.random() < 0.34):
+      ops += helper_ops(keys, n, r)
   return ops
 
 
@@ -665,9 +841,26 @@ def op_src_lines(op, mode):
   elif mode == 'skip':
     assert src.endswith(')')
     lines += [src[:-1] + ', skip_notification=True)']
+  elif mode == 'skip-false':
+    assert src.endswith(')')
+    lines += [src[:-1] + ', skip_notification=False)']
+  elif mode == 'disabled-skip-none':
+    assert src.endswith(')')
+    lines += ['with pg.notify_on_change(False):',
+              '  ' + src[:-1] + ', skip_notification=None)']
   else:
     lines += [src]
   return lines
+
+
+def takes_skip(op):
+  """The call of `op` has a skip_notification keyword."""
+  return any(x in op['src'] for x in (
+      '.rebind(', '.sym_rebind(', 'pg.patching.patch_on_'))
+
+
+ENABLED_MODES = ('normal', 'nested-enabled', 'skip-false')
+SILENT_MODES = ('disabled', 'skip', 'disabled-skip-none')
 
 
 def run_step(rec, tree, root, history, op, mode, tag, check_facts=True):
@@ -676,7 +869,7 @@ def run_step(rec, tree, root, history, op, mode, tag, check_facts=True):
     return _run_step(rec, tree, root, history, op, mode, tag, check_facts)
   except Exception as e:  # pylint: disable=broad-except
     hist = [ln for h in history for ln in h]
-    body = '\n'.join([f'root = {TREES[tree]}'] + hist +
+    body = '\n'.join([f'root = {TREE_SRC[tree]}'] + hist +
                      op_src_lines(op, mode) +
                      ['pg.from_json(pg.to_json(root), allow_partial=True)'])
     rec.case(f"{op['name']}|harness-exception", (tree, tag, op['src'], mode),
@@ -688,7 +881,9 @@ def run_step(rec, tree, root, history, op, mode, tag, check_facts=True):
 def _run_step(rec, tree, root, history, op, mode, tag, check_facts=True):
   """Executes `op` on root in `mode`; returns False if the history must stop.
 
-  mode: 'normal' | 'disabled' | 'nested-enabled' | 'skip'
+  mode: 'normal' | 'nested-enabled' | 'skip-false' (skip_notification=False
+  with notifications enabled): events as usual; 'disabled' | 'skip' |
+  'disabled-skip-none' (skip_notification=None inside a disabled scope): none.
   """
   at = op['at']
   n = resolve(root, at)
@@ -744,30 +939,39 @@ def _run_step(rec, tree, root, history, op, mode, tag, check_facts=True):
       for tk, t in chain:
         receivers.setdefault(id(t), (tk, t, []))[2].append(
             (abs_keys, post, old))
-  silent = (mode in ('disabled', 'skip') or op.get('nochange') or
-            not receivers)
+  silent = (mode in SILENT_MODES or op.get('nochange') or not receivers)
   hist_lines = [ln for h in history for ln in h]
   key = (tree, tag, tuple(ln for ln in hist_lines), at, op['src'], mode)
 
   def wit(assert_lines, warm=False):
     body = '\n'.join(
-        [f'root = {TREES[tree]}'] + hist_lines + ([_WARM] if warm else []) +
+        [f'root = {TREE_SRC[tree]}'] + hist_lines + ([_WARM] if warm else []) +
         [_PRE_IDS, 'del LOG[:]'] + lines + assert_lines)
-    pre = preamble(TREES[tree], body)
+    pre = preamble(TREE_SRC[tree], body)
     if len(pre) + len(body) > 1190:
       pre = SHORT_PRE   # keep the witness within the recorder's size limit
     return pre + body
 
   if err is not None:
+    if op.get('must_succeed'):
+      # An ordinary mutation (no schema, permission or constraint stands in
+      # its way) in whatever notification scope: raising is a failure.
+      rec.case(f"{op['name']}|returns-normally", key, False,
+               f'{lines}: raised {type(err).__name__}: {err}', wit([]))
+      return False
     # The call did not return normally: nothing is claimed about it.
     rec.case('op-raised(not-judged)', key, True, nontrivial=False)
     return False
+  if op.get('must_succeed'):
+    rec.case(f"{op['name']}|returns-normally", key, True)
   stem = op['name']
   suffix = {'normal': '', 'disabled': '|notify_on_change(False)',
             'nested-enabled': '',
-            'skip': '|skip_notification=True'}[mode]
-  if (op.get('nochange') or not receivers) and mode in (
-      'normal', 'nested-enabled'):
+            'skip': '|skip_notification=True',
+            'skip-false': '|skip_notification=False',
+            'disabled-skip-none':
+                '|notify_on_change(False)+skip_notification=None'}[mode]
+  if (op.get('nochange') or not receivers) and mode in ENABLED_MODES:
     suffix = '|no-change'
   ok_all = True
 
@@ -839,7 +1043,7 @@ def _run_step(rec, tree, root, history, op, mode, tag, check_facts=True):
           cid, key, kind == 'ok', f'{lines}: ' + '; '.join(msgs[:4]),
           wit(expect_asserts(receivers, kind)) if kind != 'ok' else '')
   # --- derived facts -------------------------------------------------------
-  if (check_facts and mode in ('normal', 'nested-enabled') and
+  if (check_facts and mode in ENABLED_MODES and
       op.get('notify_parents') is not False):
     # Nodes whose facts can have changed: every ancestor-or-self of a changed
     # location (all nodes in the thorough tier).
@@ -993,9 +1197,15 @@ def drv_single_ops(tier, seed):
       'symbolic node (facts compared at every ancestor-or-self of a changed '
       'location in quick, at every node in thorough) x every list/dict/object mutator (incl. batched and '
       'functional rebind, slices, in-place operators, update/setdefault/pop/'
-      'popitem/clear/sort/reverse, same-object no-ops) x 3 (quick) / 11 '
-      '(thorough) new-value classes; each also under notify_on_change(False), '
-      'nested (False>True) and skip_notification=True for one value')
+      'popitem/clear/sort/reverse, same-object no-ops; l *= n for n in -2, 0, '
+      '1, 2, 3 (4 thorough); growth by 3 elements/keys) x 3 (quick) / 11 '
+      '(thorough) new-value classes; + the in-place helpers of pg.patching '
+      '(patch_on_key/path/value/type/member with value or value_fn on patterns '
+      'selecting only int leaves; patch with dict / function / Patcher object '
+      '/ URI / list rule; Patcher.patch) at every node; each op also under '
+      'notify_on_change(False), nested (False>True) and, where the call has '
+      'the keyword, skip_notification=True / =False (enabled) / =None '
+      '(disabled scope), for one value')
   nvals = 2 if tier == 'quick' else len(VALUES)
   ALL_NODES[0] = tier != 'quick'
   r = rng(seed, 'c09-single')
@@ -1013,10 +1223,16 @@ def drv_single_ops(tier, seed):
       seen_modes.add(mkey)
       if op.get('nochange'):
         continue
-      for mode in ('disabled', 'nested-enabled', 'skip'):
-        if mode == 'skip' and '.rebind(' not in op['src']:
+      for mode in ('disabled', 'nested-enabled', 'skip', 'skip-false',
+                   'disabled-skip-none'):
+        if mode in ('skip', 'skip-false', 'disabled-skip-none') and (
+            not takes_skip(op)):
           continue
         if mode == 'nested-enabled' and tier == 'quick' and i % 3:
+          continue
+        if mode in ('skip-false', 'disabled-skip-none') and (
+            tier == 'quick' and tree not in ('objs', 'conts') and
+            not op['name'].startswith('patching.')):
           continue
         root = build(tree)
         _warm(root)
@@ -1031,11 +1247,11 @@ def drv_histories(tier, seed):
       scope='7 trees; quick: 45 seeded random histories of length<=5 per tree '
       '+ all 2-step histories whose first step is one of 10 sampled ops and '
       'second one of 25 sampled (20 / 5 x 12 for the 3 small root-kind trees); '
-      'thorough: 600 random histories of length<=7 '
+      'thorough: 500 random histories of length<=7 '
       '+ first step from 60 sampled x second from 80 sampled')
   r = rng(seed, 'c09-hist')
   ALL_NODES[0] = tier != 'quick'
-  n_rand, max_len = (45, 5) if tier == 'quick' else (600, 7)
+  n_rand, max_len = (45, 5) if tier == 'quick' else (500, 7)
   n_first, n_second = (10, 25) if tier == 'quick' else (60, 80)
   # A failing step ends its history (stale state would only produce echoes);
   # operations that already failed in this run are then picked rarely so
@@ -1066,7 +1282,9 @@ def drv_histories(tier, seed):
         if not ops:
           break
         op = pick(ops)
-        mode = 'normal' if r.random() < 0.9 else 'nested-enabled'
+        x = r.random()
+        mode = ('normal' if x < 0.9 else 'skip-false'
+                if x < 0.94 and takes_skip(op) else 'nested-enabled')
         ok = run_step(rec, tree, root, history, op, mode, f'rand{h}')
         if not ok:
           bad.add(op['name'])
@@ -1500,7 +1718,43 @@ def drv_misc(tier, seed):
   return rec.result()
 
 
-DRIVERS = [drv_single_ops, drv_histories, drv_receiver_classes, drv_misc]
+def _ref_locations(n, rel=()):
+  out = []
+  for k, v in n.sym_items():
+    if isinstance(v, pg.Ref):
+      out.append(rel + (k,))
+    elif isinstance(v, pg.Symbolic):
+      out += _ref_locations(v, rel + (k,))
+  return out
+
+
+def drv_references(tier, seed):
+  del tier, seed
+  rec = Recorder(
+      'C09', 'pg.symbolic.deref(recursive=True) replaces references in place: '
+      'one call, one event per affected receiver, none with notifications off',
+      scope='1 tree (Dict with callback > Object with handlers / plain Dict > '
+      'Object with _on_bound / List with callback; 4 references at depth '
+      '1-3, to an object, a Dict '
+      'with callback, an object with _on_bound) x deref at every node that has '
+      'a reference below it x enabled / disabled / nested (False>True) scope; '
+      'derived facts not compared (references cannot be serialized)')
+  for tree in REF_TREES:
+    for keys, n in sym_nodes(build(tree)):
+      refs = _ref_locations(n)
+      if not refs:
+        continue
+      op = dict(name='symbolic.deref/recursive', at=keys,
+                src='pg.symbolic.deref(n, recursive=True)',
+                exp=[(rel, 'SET') for rel in refs], must_succeed=True)
+      for mode in ('normal', 'disabled', 'nested-enabled'):
+        run_step(rec, tree, build(tree), [], op, mode, 'deref',
+                 check_facts=False)
+  return rec.result()
+
+
+DRIVERS = [drv_single_ops, drv_histories, drv_receiver_classes, drv_misc,
+           drv_references]
 
 
 def replay(rec):
